@@ -27,6 +27,7 @@ RULE = (
     "each mutation); a deep copy is ==, hash-equal and snapshot-independent in both directions. non-trivial = history "
     "with a mutation of a shared argument after a construction from it, or >= 2 queries on the same operand; "
     "distinct = distinct history."
+    ' Stratum repeat-history: a generated history (1-3 constructions, 2-5 queries / collinear bursts / copies) is evaluated twice in one process on freshly built objects and must pass both times (state kept inside the library between queries).'
 )
 ASSUMPTIONS = [
     "snapshots cover public observables only (coordinates, cached line/plane/centre, vertex tuples, face lists, point/edge sets, repr); private caches are not observed",
